@@ -25,7 +25,7 @@ pub fn run(ctx: &Ctx) -> i32 {
         tier,
         seed: ctx.seed,
         level: "exploration",
-        rule: "scenario = 3-5 real Networks on the fabric, idle timeout 2-10 s, keep-alive off/shorter/longer than it; a seeded history of 10-60 (thorough 200) steps from {dial, pinned dial, disconnect, restart on same key+address, partition, one-directional cut, heal, 100% loss burst 0.5-30 s, idle, rpc, quiescent point}; 'eventually' is restated as T_q = idle_timeout + keep_alive + 3*max latency + 1 s of fault-free virtual time; oracle at quiescent points: A lists B iff B lists A, every listed peer answers an RPC; at disconnect(): peer gone at once, next event LostPeer(Requested), rpc fails; distinct by (n, idle timeout, keep-alive class, #LostPeer, restarts, partitions)".into(),
+        rule: "scenario = 3-5 real Networks on the fabric, idle timeout 2-10 s, keep-alive off/shorter/longer than it; a seeded history of 10-60 (thorough 200) steps from {dial, pinned dial, disconnect, restart on same key+address, partition, one-directional cut, heal, 100% loss burst 0.5-30 s, idle, rpc, quiescent point}; 'eventually' is restated as T_q = idle_timeout + keep_alive + 3*max latency + 1 s of fault-free virtual time; oracle at quiescent points: A lists B iff B lists A, every listed peer answers an RPC; at disconnect(): peer gone at once, next event LostPeer(Requested), rpc fails; distinct by (n, idle timeout, keep-alive class, #LostPeer, restarts, partitions) One history in eight supplies a QUIC config that leaves the idle timeout unspecified (documented default 30 s, which T_q then uses).".into(),
         assumptions: vec!["liveness clauses are decided as bounded progress in virtual time".into()],
         summary,
         extra: Default::default(),
